@@ -50,7 +50,7 @@ def run(tier, seed):
         lines = [l for l in open(trace).read().split("\n") if l.strip()]
         runs = core.split_runs(lines)
         tested = []
-        if not rejects:
+        if not rejects and not v.violations:
             sl = [lines[s:e] for (s, e) in runs if json.loads(lines[s]).get("run") == "selftest"]
             tested = selftest.run("Trace_Ntlm", sl[0], "/dev/null", wd, corruptions(), overrides=True)
         cov = {"states": mc.distinct, "transitions": mc.generated, "traces_validated_against_impl": accepted,
